@@ -516,6 +516,9 @@ func C10FindForm(name string) *C10DeepForm {
 			return &C10DeepForms[i]
 		}
 	}
+	if f := C10FindGrowthForm(name); f != nil { // the growth forms of gen_c10c.go (names are disjoint)
+		return f
+	}
 	return C10FindRunForm(name) // the long-run forms of gen_c10b.go (names are disjoint)
 }
 
